@@ -177,5 +177,15 @@ def run(ctx) -> str:
     ctx.guarded("K2", lambda: rule_k2(ctx))
     ctx.guarded("K3", lambda: rule_k3(ctx))
     ctx.guarded("K4", lambda: rule_k4(ctx))
+
+    def shared():
+        # clauses of C18 that other properties' rules decide: "parse raises SyntaxError for strings outside the grammar" needs the parser's rejection to be total (C10 R1),
+        # and "check ... satisfies the constraint" for `level` needs all common ancestors as candidate scopes (C04 G6)
+        from . import c10, c04
+
+        c10.rule_r1(ctx)
+        c04.rule_g6(ctx)
+
+    ctx.guarded("K5", shared)
     ctx.assume("evaluate (C03) and solve (C01) are correct; returns.safe converts the listed exceptions into Failure")
     return EXPLANATION
